@@ -154,6 +154,7 @@ type Params struct {
 	Shape     string // Get: "" | "payload-only" | "range"
 	Target    oid.ID // addressed object (Get/Head/GetRange/Delete); zero = the world's R1
 	PutAttr   string // value of attribute cls of the object a Put carries; "" = secret
+	Raw       bool   // raw flag of Get/Head/GetRange
 }
 
 func (p Params) meta() *protosession.RequestMetaHeader {
@@ -186,7 +187,7 @@ func (w *World) BuildRequests(method string, p Params) ([]any, error) {
 	addr := oid.NewAddress(cnr, target).ProtoMessage()
 	switch method {
 	case "Get":
-		b := &protoobject.GetRequest_Body{Address: addr}
+		b := &protoobject.GetRequest_Body{Address: addr, Raw: p.Raw}
 		switch p.Shape {
 		case "payload-only":
 			b.PayloadOnly = true
@@ -195,9 +196,9 @@ func (w *World) BuildRequests(method string, p Params) ([]any, error) {
 		}
 		return []any{&protoobject.GetRequest{Body: b, MetaHeader: p.meta()}}, nil
 	case "Head":
-		return []any{&protoobject.HeadRequest{Body: &protoobject.HeadRequest_Body{Address: addr}, MetaHeader: p.meta()}}, nil
+		return []any{&protoobject.HeadRequest{Body: &protoobject.HeadRequest_Body{Address: addr, Raw: p.Raw}, MetaHeader: p.meta()}}, nil
 	case "GetRange":
-		return []any{&protoobject.GetRangeRequest{Body: &protoobject.GetRangeRequest_Body{Address: addr,
+		return []any{&protoobject.GetRangeRequest{Body: &protoobject.GetRangeRequest_Body{Address: addr, Raw: p.Raw,
 			Range: &protoobject.Range{Offset: 4, Length: 16}}, MetaHeader: p.meta()}}, nil
 	case "GetRangeHash":
 		return []any{&protoobject.GetRangeHashRequest{Body: &protoobject.GetRangeHashRequest_Body{Address: addr,
@@ -253,9 +254,24 @@ func (w *World) BuildRequests(method string, p Params) ([]any, error) {
 }
 
 // SignAll signs every request message with the labelled key (ECDSA_SHA512 scheme).
-func SignAll(reqs []any, label string) error {
+func SignAll(reqs []any, label string) error { return SignAllScheme(reqs, label, "") }
+
+// SignAllScheme signs every request message with the labelled key using the scheme
+// "" / "sha512" (ECDSA_SHA512), "rfc6979" (ECDSA_DETERMINISTIC_SHA256) or "walletconnect".
+func SignAllScheme(reqs []any, label, scheme string) error {
+	var signer neofscrypto.Signer
+	switch scheme {
+	case "", "sha512":
+		signer = neofsecdsa.Signer(ECDSA(label))
+	case "rfc6979":
+		signer = neofsecdsa.SignerRFC6979(ECDSA(label))
+	case "walletconnect":
+		signer = neofsecdsa.SignerWalletConnect(ECDSA(label))
+	default:
+		return fmt.Errorf("unknown signature scheme %q", scheme)
+	}
 	for _, r := range reqs {
-		if err := SignRequest(r, neofsecdsa.Signer(ECDSA(label))); err != nil {
+		if err := SignRequest(r, signer); err != nil {
 			return err
 		}
 	}
